@@ -18,6 +18,11 @@ class MonitoredStream(object):
         self._s = raw if raw is not None else io.BytesIO(initial)
         self.events = []
         self.marks = []
+        # chunks handed to write() that are not immutable bytes: a stream
+        # may keep what it is given (queue / list backed sinks), so a
+        # buffer that is modified after the write rewrites bytes that were
+        # already output
+        self.retained = []
 
     # -- reader side --------------------------------------------------
     def read(self, n=-1):
@@ -47,6 +52,12 @@ class MonitoredStream(object):
         end = self._size()
         n = self._s.write(data)
         self.events.append(('write', p, len(data), end))
+        if type(data) is not bytes and len(self.retained) < 10000:
+            try:
+                self.retained.append((len(self.events) - 1, data,
+                                      bytes(data)))
+            except Exception:
+                pass
         return n
 
     def truncate(self, *a):
@@ -119,6 +130,13 @@ def writes_between(stream, m0, m1=None):
 def check_append_only(stream, since=0):
     """Names of violated append-only rules."""
     fails = []
+    for idx, obj, snap in stream.retained:
+        try:
+            if bytes(obj) != snap:
+                fails.append('written_buffer_modified_after_write')
+                break
+        except Exception:
+            pass
     for e in stream.events[since:]:
         if e[0] == 'write' and e[1] != e[3]:
             fails.append('write_not_at_end')
